@@ -4,12 +4,15 @@ CHECK = {
     "packages": ["./actor"],
     "harness": ["actor/zz_verif_c13.go"],
     "entries": [
-        {"fn": P + "vC13_history5", "tiers": ("quick",)},
-        {"fn": P + "vC13_history6", "tiers": ("thorough",)},
+        {"fn": P + "vC13_history3", "tiers": ("x",), "cases": {"prefix": [0]}},
+        {"fn": P + "vC13_history4", "tiers": ("quick",), "cases": {"prefix": [0]}},
+        {"fn": P + "vC13_suffix3", "tiers": ("quick",), "cases": {"prefix": [1, 2, 3, 4, 5, 6]}},
+        {"fn": P + "vC13_history5", "tiers": ("thorough",), "cases": {"prefix": [0]}},
+        {"fn": P + "vC13_suffix4", "tiers": ("thorough",), "cases": {"prefix": [1, 2, 3, 4, 5, 6]}},
         {"fn": P + "vC13_nobuffer"},
     ],
     "replace": [{"file": "actor/pools.go", "old": "const contextPoolSize = 8192", "new": "const contextPoolSize = 2"}],
-    "opts": {"unwind": 10},
+    "opts": {"unwind": 12},
     "explanation": "TODO",
     "bounds": {},
 }
